@@ -1,15 +1,15 @@
 #!/bin/sh
 # tools/seedtest.sh <patch.diff> <property> [quick|thorough]
-# Applies a seeded property-breaking change to /repo's working tree, runs the
-# check, and always reverts the working tree afterwards.
+# Runs a check against a scratch worktree of /repo's HEAD with a seeded property-breaking change applied
+# (VERIF_REPO points the driver at it), so that it can run while other checks use /repo itself. The official
+# matrix (tools/seedmatrix.py) applies each patch to /repo as prescribed. The worktree is always removed.
 P="$1"; ID="$2"; TIER="${3:-quick}"
-cd /repo || exit 2
-if [ -n "$(git status --porcelain)" ]; then echo "seedtest: /repo working tree not clean"; exit 2; fi
-if ! git apply --check "$P" 2>/dev/null; then echo "seedtest: patch does not apply: $P"; exit 3; fi
-git apply "$P"
-cd /verif && ./check "$ID" "$TIER" > /tmp/seedtest.$$ 2>&1; RC=$?
-git -C /repo checkout -- . ; git -C /repo clean -fdq
-grep -E '^\[violation\]|^VIOLATION|^KNOWN|^\[C|MACHINERY' /tmp/seedtest.$$ | cut -c1-300 | head -12
-rm -f /tmp/seedtest.$$
+WT=$(mktemp -d /var/tmp/seedtest-XXXXXX); rmdir "$WT"
+git -C /repo worktree add --detach "$WT" HEAD >/dev/null 2>&1 || { echo "seedtest: cannot create worktree"; exit 2; }
+if ! git -C "$WT" apply "$P" 2>/dev/null; then echo "seedtest: patch does not apply: $P"; git -C /repo worktree remove --force "$WT"; exit 3; fi
+cd /verif && VERIF_REPO="$WT" VERIF_NO_EVIDENCE=1 ./check "$ID" "$TIER" > "$WT.log" 2>&1; RC=$?
+git -C /repo worktree remove --force "$WT"; git -C /repo worktree prune
+grep -E '^\[violation\]|^VIOLATION|^KNOWN|^\[C|MACHINERY' "$WT.log" | cut -c1-300 | head -12
+rm -f "$WT.log"
 echo "seedtest: $P on $ID $TIER -> exit $RC"
 exit 0
